@@ -33,7 +33,7 @@ Fixpoint read_clean (ls : list str) (buffer : list str) (done : list scanrec) : 
   end.
 Lemma read_loop_clean ls : forall buffer done, read_loop ls buffer done = read_clean (clean ls) buffer done.
 Proof.
-  induction ls as [|l0 r IH]; intros buffer done; [reflexivity|]. cbn [read_loop]. unfold clean. cbn [map filter].
+  induction ls as [|l0 r IH]; intros buffer done; [cbn [read_loop clean map filter read_clean]; destruct buffer as [|b0 bs]; rewrite ?frev_eq; [reflexivity|]; destruct (record_of _); rewrite ?frev_eq; reflexivity|]. cbn [read_loop]. rewrite ?frev_eq. unfold clean. cbn [map filter].
   destruct (trim l0) as [|c t] eqn:E; [apply IH|]. cbn [read_clean]. fold (clean r). unfold is_head.
   destruct (starts_with (lit "PKGNAME=") (c :: t) && _)%bool; [destruct (record_of _); auto|auto].
 Qed.
